@@ -500,13 +500,19 @@ class Data(Container, NetCDFHDF5, Files, core.Data):
 
         array = self.array
 
-        if value is cfdm_masked or np.ma.isMA(value):
+        # Convert the value to a numpy array before testing it for
+        # masked elements, so that the mask of a `Data` value (or of
+        # any other object that converts to a masked array) is
+        # assigned too.
+        value = np.asanyarray(value)
+
+        if np.ma.isMA(value):
             # The data is not masked but the assignment is masking
             # elements, so turn the non-masked array into a masked
             # one.
             array = array.view(np.ma.MaskedArray)
 
-        self._set_subspace(array, indices, np.asanyarray(value))
+        self._set_subspace(array, indices, value)
 
         self._set_Array(array, copy=False)
 
